@@ -13,7 +13,8 @@ Fields == {"host", "port", "root", "tls"}          \* "tls" = the certificate/ke
 Absent == "-"
 \* a source gives a field a value named after the source (so that the winner can be told), or nothing
 Src == [Fields -> BOOLEAN]
-RateFiles == {Absent, "tight", "off"}              \* [rate_limit] absent / capacity 2, refill 0.01, retry 7 / enabled = false
+RateFiles == {Absent, "tight", "off", "frozen"}    \* [rate_limit] absent / capacity 2, refill 0.01, retry 7 / enabled = false /
+                                                   \* capacity 3, refill 0.0, retry 0 (zeros are values, not "unset")
 AclFiles  == {Absent, "deny", "allowonly", "closed"}     \* absent / deny_list / allow_list / default_allow = false without lists
 CertFiles == {Absent, "rules"}                     \* [[certificate_auth.paths]] with two rules, one with a fingerprint list
 VARIABLES hasFile, toml, cli, env, rate, acl, certs, reqFlag, out
@@ -36,7 +37,7 @@ Eval == /\ out = Pending
         /\ out' = [k |-> IF Refused THEN "refused" ELSE "started",
                    from |-> [f \in Fields |-> Winner(f)],
                    rateEnabled |-> (Lost \/ rate # "off"),
-                   rate |-> IF rate = "tight" /\ ~Lost THEN "tight" ELSE "default",
+                   rate |-> IF rate \in {"tight", "frozen"} /\ ~Lost THEN rate ELSE "default",
                    acl |-> IF Lost THEN Absent ELSE acl,
                    certs |-> IF certs = "rules" /\ ~Lost THEN "rules" ELSE Absent]
         /\ UNCHANGED <<hasFile, toml, cli, env, rate, acl, certs, reqFlag>>
@@ -45,7 +46,7 @@ Done == out.k = "started"
 \* ---- properties ----------------------------------------------------------------------------------------------------------
 Precedence == Done => \A f \in Fields : out.from[f] = Winner(f)
 \* C10: the rate limiter runs with the file's capacity, refill rate and retry hint (or the defaults), whatever is overridden
-RateAsConfigured == Done => (out.rateEnabled = (rate # "off") /\ out.rate = (IF rate = "tight" THEN "tight" ELSE "default"))
+RateAsConfigured == Done => (out.rateEnabled = (rate # "off") /\ out.rate = (IF rate \in {"tight", "frozen"} THEN rate ELSE "default"))
 \* C09: the address policy of the file reaches the server
 AclAsConfigured == Done => out.acl = acl
 \* C05: the certificate rules of the file reach the server; the command-line flag adds a requirement, it never replaces rules
